@@ -58,38 +58,86 @@ def _sclass(v, enc):
 
 
 # ------------------------------------------------------------------ workers
-def w_signed(rng):
+def _check_signed(W, v):
+    op = W.opcodes["i32.const"]
+    buf = io.BytesIO()
+    try:
+        W.Instruction(op, (v,)).WriteTo(buf)
+        data = buf.getvalue()
+        enc = data[1:]
+        got, pos = leb.decode_signed(enc, 0, 32)
+        ok = data[0] == op and got == v and pos == len(enc) and len(enc) <= 5
+        return ok, _sclass(v, enc), f"wrote {enc.hex()} which decodes (signed) to {got} using {pos} of {len(enc)} bytes", len(enc)
+    except Exception as e:  # writer or decoder refused
+        return False, ("neg" if v < 0 else "nonneg") + "," + type(e).__name__, f"{type(e).__name__}: {e}", 0
+
+
+def _check_unsigned(W, v, site):
+    buf = io.BytesIO()
+    try:
+        if site == "WriteInteger":
+            W.WriteInteger(buf, v)
+            enc = buf.getvalue()
+        elif site == "local.get index":
+            W.Instruction(W.opcodes["local.get"], (v,)).WriteTo(buf)
+            enc = buf.getvalue()[1:]
+        elif site == "Export index":
+            W.Export(v, "f").WriteTo(buf)
+            enc = buf.getvalue()[3:]  # 01 'f' 00 <index>
+        else:
+            W.Local(W.ValueType.i32, v).WriteTo(buf)
+            enc = buf.getvalue()[:-1]
+        got, pos = leb.decode_unsigned(enc, 0, 32)
+        ok = got == v and pos == len(enc) and len(enc) <= 5
+        return ok, "mismatch", f"wrote {enc.hex()} which decodes (unsigned) to {got} using {pos} of {len(enc)} bytes"
+    except Exception as e:
+        return False, type(e).__name__, f"{type(e).__name__}: {e}"
+
+
+USITES = ("WriteInteger", "local.get index", "Export index", "Local count")
+
+
+def w_ints(job):
+    """Every value of the range through the signed site and the unsigned sites, in the given order.  Both orders are
+    run (in different, hermetic jobs), so an encoder whose result depends on what was encoded before is seen."""
     from nsl import WebAssembly as W
 
-    a, b = rng
-    op = W.opcodes["i32.const"]
+    order, a, b = job
     fails = []
     n = 0
     lens = set()
-    for v in range(a, b):
-        buf = io.BytesIO()
-        try:
-            W.Instruction(op, (v,)).WriteTo(buf)
-            data = buf.getvalue()
-            ok = data[0] == op
-            enc = data[1:]
-            got, pos = leb.decode_signed(enc, 0, 32)
-            ok = ok and got == v and pos == len(enc) and len(enc) <= 5
-            detail = f"wrote {enc.hex()} which decodes (signed) to {got} using {pos} of {len(enc)} bytes"
-            cls = _sclass(v, enc)
-        except Exception as e:  # writer or decoder refused
-            ok = False
-            enc = b""
-            detail = f"{type(e).__name__}: {e}"
-            cls = ("neg" if v < 0 else "nonneg") + "," + type(e).__name__
+
+    def signed(v):
+        nonlocal n
+        if not (-(1 << 31) <= v < (1 << 31)):
+            return
+        ok, cls, detail, ln = _check_signed(W, v)
         n += 1
-        lens.add(len(enc))
-        if not ok and len(fails) < 3:
-            fails.append({"key": f"C19|sint|i32.const immediate|{cls}", "part": "sint", "value": v,
+        lens.add(ln)
+        if not ok:
+            fails.append({"key": f"C19|sint|i32.const immediate|{cls}", "part": "int", "order": order, "value": v,
                           "expected": f"signed LEB128 of {v} = {leb.encode_signed(v).hex()}", "observed": detail})
-        elif not ok:
-            fails.append({"key": f"C19|sint|i32.const immediate|{cls}", "part": "sint", "value": v})
-    # collapse: keep at most 3 full records per key, count the rest
+
+    def unsigned(v):
+        nonlocal n
+        if not (0 <= v < (1 << 32)):
+            return
+        for site in USITES:
+            if site == "Local count" and v == 0:
+                continue
+            ok, cls, detail = _check_unsigned(W, v, site)
+            n += 1
+            if not ok:
+                fails.append({"key": f"C19|uint|{site}|{cls}", "part": "int", "order": order, "site": site, "value": v,
+                              "expected": f"unsigned LEB128 of {v} = {leb.encode_unsigned(v).hex()}", "observed": detail})
+
+    for v in range(a, b):
+        if order == "unsigned-first":
+            unsigned(v)
+            signed(v)
+        else:
+            signed(v)
+            unsigned(v)
     return n, _collapse(fails), sorted(lens)
 
 
@@ -106,47 +154,22 @@ def _collapse(fails):
     return out
 
 
-SITES = ("WriteInteger", "local.get index", "Export index", "Local count", "FunctionSection index", "WriteString length")
-
-
-def w_unsigned(rng):
-    from nsl import WebAssembly as W
-
-    a, b = rng
-    fails = []
-    n = 0
-    for v in range(a, b):
-        for site in ("WriteInteger", "local.get index", "Export index", "Local count"):
-            buf = io.BytesIO()
-            try:
-                if site == "WriteInteger":
-                    W.WriteInteger(buf, v)
-                    enc = buf.getvalue()
-                elif site == "local.get index":
-                    W.Instruction(W.opcodes["local.get"], (v,)).WriteTo(buf)
-                    enc = buf.getvalue()[1:]
-                elif site == "Export index":
-                    W.Export(v, "f").WriteTo(buf)
-                    enc = buf.getvalue()[3:]  # 01 'f' 00 <index>
-                else:
-                    if v == 0:
-                        n += 1
-                        continue
-                    W.Local(W.ValueType.i32, v).WriteTo(buf)
-                    enc = buf.getvalue()[:-1]
-                got, pos = leb.decode_unsigned(enc, 0, 32)
-                ok = got == v and pos == len(enc) and len(enc) <= 5
-                detail = f"wrote {enc.hex()} which decodes (unsigned) to {got} using {pos} of {len(enc)} bytes"
-                cls = "mismatch"
-            except Exception as e:
-                ok = False
-                detail = f"{type(e).__name__}: {e}"
-                cls = type(e).__name__
-            n += 1
-            if not ok:
-                fails.append({"key": f"C19|uint|{site}|{cls}", "part": "uint", "site": site, "value": v,
-                              "expected": f"unsigned LEB128 of {v} = {leb.encode_unsigned(v).hex()}", "observed": detail})
-    return n, _collapse(fails), []
+def w_multi(job):
+    order, rngs = job
+    n, fails, lens = 0, [], set()
+    for a, b in rngs:
+        k, fl, ln = w_ints((order, a, b))
+        n += k
+        fails += fl
+        lens.update(ln)
+    # merge count_only entries
+    counts, full = {}, []
+    for f in fails:
+        if "count_only" in f:
+            counts[f["key"]] = counts.get(f["key"], 0) + f["count_only"]
+        else:
+            full.append(f)
+    return n, full + [{"key": k, "count_only": c} for k, c in counts.items()], sorted(lens)
 
 
 def _name_alphabet():
@@ -358,26 +381,31 @@ def run(tier, seed):
     thorough = tier == "thorough"
     jobs = []
     ns = pool.shards()
-    for rng in _chunks(signed_domain(tier), ns):
-        jobs.append((w_signed, rng))
-    for rng in _chunks(unsigned_domain(tier), ns):
-        jobs.append((w_unsigned, rng))
+    ranges = sorted(set(_chunks(signed_domain(tier), 8) + _chunks(unsigned_domain(tier), 8)))
+    # coarse hermetic jobs: the dense pieces alone, all windows together, each in both orders
+    dense = [r for r in ranges if r[1] - r[0] >= 4096]
+    wins = [r for r in ranges if r[1] - r[0] < 4096]
+    for order_ in ("unsigned-first", "signed-first"):
+        for a_, b_ in dense:
+            jobs.append((w_ints, (order_, a_, b_)))
+        for i in range(0, len(wins), 24):
+            jobs.append((w_multi, (order_, tuple(wins[i:i + 24]))))
     top = 300 if not thorough else 700
-    for lo in range(1, top, 50):
-        jobs.append((w_names, ("ident", lo, min(top, lo + 50))))
+    for lo in range(1, top, 150):
+        jobs.append((w_names, ("ident", lo, min(top, lo + 150))))
     jobs.append((w_names, ("utf8", 1, 4 if not thorough else 5)))
     nbody = 120 if not thorough else 4300      # 4 bytes/pair: crosses 127/128 (and 16383/16384 in thorough)
-    for lo in range(0, nbody, 100):
-        jobs.append((w_frames_api, ("body", lo, min(nbody, lo + 100))))
+    for lo in range(0, nbody, 600):
+        jobs.append((w_frames_api, ("body", lo, min(nbody, lo + 600))))
     nf = 70 if not thorough else 2200          # 3 bytes/body, ~5 bytes/export
-    for lo in range(1, nf, 100):
-        jobs.append((w_frames_api, ("funcs", lo, min(nf, lo + 100))))
-    for lo in range(1, 300 if not thorough else 17000, 500):
-        jobs.append((w_frames_api, ("name", lo, min(300 if not thorough else 17000, lo + 500))))
+    for lo in range(1, nf, 400):
+        jobs.append((w_frames_api, ("funcs", lo, min(nf, lo + 400))))
+    for lo in range(1, 300 if not thorough else 17000, 3000):
+        jobs.append((w_frames_api, ("name", lo, min(300 if not thorough else 17000, lo + 3000))))
     jobs.append((w_e2e, ("const", 0, len(E2E_CONSTS))))
     ne = 40 if not thorough else 400
-    for lo in range(1, ne, 20):
-        jobs.append((w_e2e, ("stmts", lo, min(ne, lo + 20))))
+    for lo in range(1, ne, 100):
+        jobs.append((w_e2e, ("stmts", lo, min(ne, lo + 100))))
     order = list(range(len(jobs)))
     if seed:
         order = order[seed % len(order):] + order[: seed % len(order)]
@@ -387,10 +415,13 @@ def run(tier, seed):
     counts = {}
     lens = set()
     per_part = {}
-    for (fn, _), (n, fl, extra) in zip([jobs[i] for i in order], results):
+    for (fn, arg), (n, fl, extra) in zip([jobs[i] for i in order], results):
+        for _f in fl:
+            if isinstance(_f, dict) and "key" in _f:
+                _f.setdefault("job", {"fn": "nslmc.props.c19:rejob", "arg": [fn.__name__, arg]})
         evals += n
         per_part[fn.__name__] = per_part.get(fn.__name__, 0) + n
-        if fn is w_signed:
+        if fn in (w_ints, w_multi):
             lens.update(extra)
         for f in fl:
             if "count_only" in f:
@@ -411,7 +442,7 @@ def run(tier, seed):
     cov = {
         "evaluations": evals,
         "distinct_nontrivial": evals - per_part.get("w_e2e", 0) // 2,
-        "rule": "every integer of the dense range and of the +-130 windows round +-2^k (k=0..32) through the real writer "
+        "rule": "(every value goes through the signed i32.const site and the unsigned sites in BOTH orders, in separate fresh interpreters) every integer of the dense range and of the +-130 windows round +-2^k (k=0..32) through the real writer "
                 "at each site of its kind (i32.const signed; WriteInteger/local index/export index/local count unsigned), "
                 "decoded by an independent textbook LEB128 decoder; every identifier length; every UTF-8 string up to the "
                 "length bound over code points of 1-4 bytes; payload-size sweeps over bodies, function counts and export "
@@ -431,6 +462,14 @@ def run(tier, seed):
                             "values outside the dense range and the windows round powers of two are not enumerated"]}
 
 
+
+def rejob(x):
+    """Re-execute one worker job (used by ./check --rejob for history-dependent failures)."""
+    def tup(v):
+        return tuple(tup(y) for y in v) if isinstance(v, list) else v
+    return globals()[x[0]](tup(x[1]))
+
+
 def _dispatch(job):
     fn, arg = job
     return fn(arg)
@@ -438,10 +477,9 @@ def _dispatch(job):
 
 def replay(rec, verbose=True):
     part = rec.get("part")
-    if part == "sint":
-        _, fl, _ = w_signed((rec["value"], rec["value"] + 1))
-    elif part == "uint":
-        _, fl, _ = w_unsigned((rec["value"], rec["value"] + 1))
+    if part == "int":
+        _, fl, _ = w_ints((rec["order"], rec["value"], rec["value"] + 1))
+        fl = [f for f in fl if f["key"] == rec["key"]]
     elif part == "name":
         from nsl import WebAssembly as W
         buf = io.BytesIO()
@@ -470,7 +508,7 @@ def replay(rec, verbose=True):
         fl = [1]
     if verbose:
         print("replay", {k: rec[k] for k in rec if k not in ("key",)})
-        if part == "sint":
+        if part == "int" and "sint" in rec["key"]:
             print("def test_replay():\n    import io\n    from nsl import WebAssembly as W\n    b = io.BytesIO()\n"
                   f"    W.Instruction(W.opcodes['i32.const'], ({rec['value']},)).WriteTo(b)\n"
                   f"    assert b.getvalue()[1:] == bytes.fromhex('{leb.encode_signed(rec['value']).hex()}')")
